@@ -57,7 +57,7 @@ def declares(d):
     return d[1] if d[0] in ("struct", "enum") else None
 
 
-PATHS = {"flat": ("m1", "m2"), "dotted": ("sub.m1", "sub.m2"), "deep": ("sub.deep.m1", "sub.deep.m2")}
+PATHS = {"flat": ("m1", "m2"), "dotted": ("sub.m1", "sub.m2"), "deep": ("sub.deep.m1", "sub.deep.m2"), "samebase": ("left.types", "right.types"), "mixed": ("sub.m1", "m2")}
 
 
 def splits(base, tier):
@@ -109,8 +109,10 @@ def splits(base, tier):
                 fn = first_need(f)
                 cand = sorted(set([0, fn] + ([fn // 2] if tier != "quick" else []) + ([len(main_idx)] if fn == len(main_idx) else [])))
                 pos_choices.append([p for p in cand if p <= fn])
-            for pathvar in ("flat", "dotted", "deep") if tier != "quick" else ("flat", "deep"):
+            for pathvar in ("flat", "dotted", "deep", "samebase", "mixed") if tier != "quick" else ("flat", "deep", "samebase", "mixed"):
                 p1, p2 = PATHS[pathvar]
+                if topo == "chain" and pathvar in ("samebase", "mixed"):
+                    continue
                 for positions in itertools.product(*pos_choices):
                     main = [base[i] for i in main_idx]
                     inserts = sorted(zip(positions, imports_main), key=lambda x: (-x[0], -x[1]))
@@ -253,14 +255,14 @@ def run(tier):
         nsplit += len(sp)
         for k, (label, files) in enumerate(sp):
             cases.append((bname, label, files, None))
-            if tier == "quick" and k % 4:
+            if tier == "quick" and k % 8:
                 continue
             for modname in files:
                 if modname == "main":
                     continue
                 for kind in ERRORS:
                     cases.append((bname, label, files, (modname, kind)))
-    r.bounds = {"splits": nsplit, "error_cases": len(cases) - nsplit, "bases": list(BASES), "topologies": ["star", "chain"], "paths": list(PATHS) if tier != "quick" else ["flat", "deep"]}
+    r.bounds = {"splits": nsplit, "error_cases": len(cases) - nsplit, "bases": list(BASES), "topologies": ["star", "chain"], "paths": list(PATHS) if tier != "quick" else ["flat", "deep", "samebase", "mixed"]}
     from .c08 import WorkDirs
 
     with WorkDirs():
@@ -269,7 +271,7 @@ def run(tier):
     r.rule = (
         "states = (base schema, assignment of its declarations to {main, m1, m2} closed under declare-before-use, topology star|chain, module path depth, position of each mod "
         "statement up to the point of first need) on a real scratch file tree, compared per category (multiset of to_dict items) with the single-file parse; plus, for every module of "
-        "every split (quick: every 4th split), each injected error {syntax, truncated, undeclared type, missing file}: must be Err naming the module file. all states non-trivial."
+        "every split (quick: every 8th split), each injected error {syntax, truncated, undeclared type, missing file}: must be Err naming the module file. all states non-trivial."
     )
     r.assumptions = ["order of declarations across files is not judged, only the multiset per category"]
     return r.finish()
